@@ -44,10 +44,16 @@ structure Archive where
 
 def strOf (s : Str) : String := String.ofList (s.map (fun c => Char.ofNat c))
 
+/-- the coordinates do not lie on the zoom's 2^z × 2^z grid (zooms the tile-ID arithmetic supports) -/
+def outsideGrid (z x y : Nat) : Prop := z < 32 ∧ (2^z ≤ x ∨ 2^z ≤ y)
+
+instance (z x y : Nat) : Decidable (outsideGrid z x y) := by unfold outsideGrid; infer_instance
+
 /-- `getTileAttempt` for a known archive -/
 def tileResp (a : Archive) (z x y : Nat) (ext : Str) : Resp :=
   let h := a.header
   if z < h.minZoom ∨ z > h.maxZoom then { status := 404 }
+  else if outsideGrid z x y then { status := 404 }
   else match extOf h.tileType with
     | some e => if strOf ext ≠ e then { status := 400 } else
         match a.tile (TileId.goZxyToID z x y) with
